@@ -180,6 +180,21 @@ theorem skip_absorbs_ws (ws rest : List Nat) (pos : Nat) (hws : ∀ c ∈ ws, Pe
     ∃ t, Runs G (.call Generated.C03.R.Skip) pos (ws ++ rest) (.ok (pos + ws.length) rest t) :=
   PegTokens.skip_absorbs_ws ws rest pos hws hrest
 
+/-- `Skip` absorbs every whitespace / comment string (`PegTokens.SkipStr`: blanks in any mix, `/* … */` with a body free
+of `*/`, `// …` and `# …` up to a line end, in any order and number) and stops at the first character that cannot
+continue it. -/
+theorem skip_absorbs (w rest : List Nat) (pos : Nat) (hw : PegTokens.SkipStr w) (hrest : PegTokens.StopsSkip rest) :
+    ∃ t, Runs G (.call Generated.C03.R.Skip) pos (w ++ rest) (.ok (pos + w.length) rest t) :=
+  PegTokens.skip_absorbs w rest pos hw hrest
+
+-- " /* c */// x⏎# y⏎⇥" is such a string
+example : PegTokens.SkipStr
+    (32 :: (47 :: 42 :: [32, 99, 32] ++ 42 :: 47 :: (47 :: 47 :: [32, 120] ++ (10 :: (35 :: [32, 121] ++ (10 :: 9 :: [])))))) :=
+  .ws (by decide) (.long (body := [32, 99, 32]) (by decide) (.line (body := [32, 120]) (w := 10 :: (35 :: [32, 121] ++ (10 :: 9 :: [])))
+    (by decide) (by decide) (by decide)
+    (.ws (by decide) (.unix (body := [32, 121]) (w := 10 :: 9 :: []) (by decide) (by decide) (by decide)
+      (.ws (by decide) (.ws (by decide) .nil))))))
+
 example : PegTokens.StopsSkip (txt "struct") ∧ ∀ c ∈ txt " \t\r\n ", PegTokens.isWs c := by decide
 
 /-- A ListSeparator node (`,` and `;` alike: the walker never looks inside) is invisible to every loop of the walker. -/
